@@ -379,18 +379,7 @@ def rule_r3(repo, tier):
                 if not r.ok or r.value != declared * 8:
                     rr.fail(key + ':extent', fi.where, 'a section declared %d octets is consumed as %s bits (outcome %s), expected exactly %d' % (
                         declared, r.value, r.describe(), declared * 8), witness={'declared': declared, 'content_bits': content_bits})
-    # total length: three outcomes in Encoder.process
-    fi = repo.own_method('Encoder', 'process')
-    txt = [norm(n.test) for n in ast.walk(fi.node) if isinstance(n, ast.If)]
-    has_ne = any('bufr_message.length.value != nbytes_write' in t or 'nbytes_write != bufr_message.length.value' in t for t in txt)
-    rr.instance('Encoder.process: declared total length compared with the octets written')
-    if not has_ne:
-        rr.fail('Encoder.process:total-mismatch', fi.where, 'no branch refuses a declared total length that differs from the octets written')
-    else:
-        for n in ast.walk(fi.node):
-            if isinstance(n, ast.If) and ('!= nbytes_write' in norm(n.test) or 'nbytes_write !=' in norm(n.test)):
-                if not any(isinstance(x, ast.Raise) for s in n.body for x in ast.walk(s)):
-                    rr.fail('Encoder.process:total-mismatch', '%s:%d' % (fi.module.relpath, n.lineno), 'the mismatch branch does not raise')
+    # (the three outcomes of the total length in Encoder.process - computed / kept / refused - are decided by the fold of R1)
     rr.require_floor(30)
     return rr
 
